@@ -636,6 +636,11 @@ func generateTables(source *syntax.Model, out *grammar.Grammar, opts genOptions,
 	parser.Inputs = source.Inputs
 	parser.Nonterms = source.Nonterms
 	parser.NumTerminals = len(source.Terminals)
+	for _, t := range source.Terminals {
+		if t.Type != "" {
+			parser.TypedTerminals = true
+		}
+	}
 	midrule.finalize(out, g)
 
 	// Assign action ids to rules that will get a default semantic action with a cast. When there is
